@@ -237,7 +237,7 @@ int reb_binary_diff(char* buf1, size_t size1, char* buf2, size_t size2, char** b
                     fields_differ |= (vc1[i].testparticle != vc2[i].testparticle);
                     fields_differ |= (vc1[i].index_1st_order_a != vc2[i].index_1st_order_a);
                     fields_differ |= (vc1[i].index_1st_order_b != vc2[i].index_1st_order_b);
-                    fields_differ |= (vc1[i].lrescale != vc2[i].lrescale);
+                    fields_differ |= (memcmp(&vc1[i].lrescale, &vc2[i].lrescale, sizeof(double))!=0);
                 }
             }else{
                 if (memcmp(buf1+pos1,buf2+pos2,field1.size)!=0){
